@@ -34,6 +34,7 @@ type Ctx struct {
 	Inlined     []string // "caller <- callee" for every call folded back by the helper-inlining normalisation
 	Unrolled    []string // notes of the loop / table normalisation
 	ConstTables []string // package-level variables treated as constant tables
+	liveSet     map[*ssa.Function]bool
 	DeadHelpers []string // unexported helpers left without any reference after inlining (dropped from ModFuncs)
 	// renamed anchors (anchors.go)
 	anchorAlias map[string]*ssa.Function
@@ -155,6 +156,7 @@ func Load(dir, goarch, modPath string, minPkgs int) (*Ctx, error) {
 				break
 			}
 			c.Inlined = append(c.Inlined, res.Inlined...)
+			ssa.FoldInlined(c.ModFuncs, res.Inlined)
 			c.dropDeadHelpers()
 			if ct == nil {
 				ct = ssa.AnalyzeConstGlobals(c.ModFuncs)
@@ -414,6 +416,10 @@ func (c *Ctx) dropDeadHelpers() {
 			// or a method that is not in any interface's method set
 			if !dead && fn.Parent() == nil && fn.Object() != nil && !fn.Object().Exported() && fn.Signature.Recv() != nil &&
 				!referenced[fn] && !c.isAnchorFn(fn) && !c.methodNameInSomeInterface(fn.Name()) {
+				dead = true
+			}
+			// a function literal whose every call was inlined and whose closure value is gone
+			if !dead && fn.Parent() != nil && !referenced[fn] {
 				dead = true
 			}
 			if dead {
